@@ -389,27 +389,19 @@ Theorem C03_wildcard_expands_to_effective : forall def ops u cs,
 Proof. intros def ops u cs _ v. apply wildcard_expands_to_effective. Qed.
 Print Assumptions C03_wildcard_expands_to_effective.
 
-(* AuthorizeAnyCollectionChannel: for a non-empty set, authorized iff some channel of it can be seen (default and named
-   collections alike); for the EMPTY set (a document in no channel) in a named collection, iff "*" is in the effective
-   set.  In the DEFAULT collection the empty set is authorized iff "*" is among the user's OWN channels: a "*" held
-   through a role is ignored there (auth/role.go authorizeAnyChannel) -- the uniform law is refuted for the unchanged
-   code, see C03_Refuted.v (signature authorize-any-empty-set-ignores-role-star) *)
-Theorem C03_authorize_any_agrees_partial : forall def ops u cs,
-  xwf (xinit def) ops = true ->
-  let v := view_of (xrun (xinit def) ops) u in
-  (cs <> [] -> forall isdef, authorize_any isdef v cs = existsb (can_see v) cs) /\
-  (authorize_any false v [] = true <-> In star (effective_set v)) /\
-  (authorize_any true v [] = true <-> In star (keys (uv_own v))).
-Proof.
-  intros def ops u cs _ v. split; [intros H isdef; apply authorize_any_nonempty; exact H|].
-  split; [apply authorize_any_empty_named | apply authorize_any_empty_default].
-Qed.
-Print Assumptions C03_authorize_any_agrees_partial.
-Definition C03_authorize_any_agrees_full_statement : Prop := forall def ops u cs isdef,
+(* AuthorizeAnyCollectionChannel agrees with the effective set for EVERY channel set, in the default collection and in
+   a named one: a non-empty set is authorized iff some channel of it is in the effective set or "*" is; the EMPTY set
+   (a document in no channel) iff "*" is in the effective set, held directly or through a role.
+   (Before the repair a58a51d the default collection ignored a "*" held through a role for the empty set: the old
+   behaviour is authorize_any_with true, refuted in C03_Refuted.v, monitor signature
+   authorize-any-empty-set-ignores-role-star.) *)
+Theorem C03_authorize_any_agrees : forall def ops u cs isdef,
   xwf (xinit def) ops = true ->
   let v := view_of (xrun (xinit def) ops) u in
   authorize_any isdef v cs = true <->
   match cs with [] => In star (effective_set v) | _ => exists c, In c cs /\ (In c (effective_set v) \/ In star (effective_set v)) end.
+Proof. intros def ops u cs isdef _ v. apply authorize_any_agrees. Qed.
+Print Assumptions C03_authorize_any_agrees.
 
 (* non-vacuity: a history without purge in which a user created AFTER the granting document gets a channel
    directly and one through a granted role, and loses both when the document is tombstoned *)
